@@ -79,8 +79,19 @@ func main() {
 	n := flag.Int("n", 100, "")
 	big := flag.Int("big", 6, "number of programs on memories above 2 GiB")
 	mode := flag.String("mode", "e2e", "e2e: programs on both engines | amode: lowerToAddressMode called directly | elide: the frontend's known-safe-bounds cache observed while it lowers generated functions")
+	threads := flag.Bool("threads", true, "guard stream: enable the threads proposal (atomics)")
+	from := flag.Int("from", 0, "guard child: first program")
+	to := flag.Int("to", 0, "guard child: one past the last program")
+	par := flag.Int("par", 6, "guard stream: children in parallel")
+	watchdog := flag.Int("watchdog", 30, "guard stream: seconds without output before a child is killed")
 	flag.Parse()
 	switch *mode {
+	case "guard": // access programs on guard-page memories, in child processes (guard_*.go)
+		guardParent(*seed, *n, *threads, *par, *watchdog)
+		return
+	case "guardchild":
+		guardChild(*seed, *n, *threads, *from, *to)
+		return
 	case "amode":
 		mainAmode(*seed, *n)
 		return
